@@ -1,0 +1,29 @@
+//go:build verif
+
+package objectcache
+
+// Contracts checked by /verif/gocv (comment-only file; see /verif/DESIGN.md §3).
+
+//@ func objectCacheKey
+//@ pure
+//@ func headCacheKey
+//@ pure
+
+// Transparency (sequential clause): every method of storage.Storage that changes what HeadObject/GetObject of a key
+// would return, once the inner storage has accepted it, removes that key's body entry and head entry from the cache
+// after the inner call. The template is instantiated for the whole method set of the middleware, including methods
+// it only inherits from the embedded delegator: a mutator the middleware forgot to override fails its obligation.
+//@ methods m *objectCacheStorageMiddleware of storage.Storage in AppendObject DeleteObject CompleteMultipartUpload PutObjectTagging DeleteObjectTagging TransitionObjectStorageClass
+//@ mode effects
+//@ effect[C20:body-invalidated-after-mutation] every m.Next.$M(_, storage.BucketName($b), storage.ObjectKey($k), __) -> (__, $err) if $err == nil
+//@     needs after m.cache.Remove($ck) where $ck == objectCacheKey($b, $k)
+//@ effect[C20:head-invalidated-after-mutation] every m.Next.$M(_, storage.BucketName($b), storage.ObjectKey($k), __) -> (__, $err) if $err == nil
+//@     needs after m.cache.Remove($ck) where $ck == headCacheKey($b, $k)
+
+// CopyObject changes the destination key.
+//@ methods m *objectCacheStorageMiddleware of storage.Storage in CopyObject
+//@ mode effects
+//@ effect[C20:copy-invalidates-destination-body] every m.Next.CopyObject(_, _, _, $b, $k, _) -> (_, $err) if $err == nil
+//@     needs after m.cache.Remove($ck) where $ck == objectCacheKey($b, $k)
+//@ effect[C20:copy-invalidates-destination-head] every m.Next.CopyObject(_, _, _, $b, $k, _) -> (_, $err) if $err == nil
+//@     needs after m.cache.Remove($ck) where $ck == headCacheKey($b, $k)
